@@ -90,8 +90,9 @@ def inline_constants(tree, modname, ref):
         n += _subst_module_names(tree, consts)
     # class level
     known_cls = ref.get("class_attrs", {})
+    quals = _class_quals(tree, modname)
     for cls in [c for c in ast.walk(tree) if isinstance(c, ast.ClassDef)]:
-        q = _class_qual(tree, cls, modname)
+        q = quals[id(cls)]
         known = set(known_cls.get(q, []))
         cc = {}
         for st in cls.body:
@@ -109,6 +110,23 @@ def inline_constants(tree, modname, ref):
         if cc:
             n += _subst_class_attrs(tree, cls, cc)
     return n
+
+
+def _class_quals(tree, modname):
+    """id(ClassDef) -> qualified name, in one traversal"""
+    out = {}
+
+    def rec(node, path):
+        for c in ast.iter_child_nodes(node):
+            if isinstance(c, ast.ClassDef):
+                out[id(c)] = modname + "." + ".".join(path + [c.name])
+                rec(c, path + [c.name])
+            elif isinstance(c, FUNC):
+                rec(c, path + [c.name])
+            elif isinstance(c, ast.stmt):
+                rec(c, path)
+    rec(tree, [])
+    return out
 
 
 def _class_qual(tree, cls, modname):
